@@ -2,4 +2,10 @@
 namespace EinoV.Expected.C13
 def internalErrorHasUnwrap : Bool := true
 def failedTaskReportedAsIs : Bool := true
+/-- every state-mutex `Lock()` of compose/state.go is followed by `defer …Unlock()` -/
+def stateLocksReleasedByDefer : Bool := true
+/-- the deferred recover handler of `taskManager.executor` does nothing that can itself panic -/
+def executorRecoverHandlerClean : Bool := true
+/-- the facts of the step model (`ExecFacts` fields: recovers, handlerClean, unlockByDefer) -/
+def execRecovers : Bool := true
 end EinoV.Expected.C13
